@@ -360,7 +360,24 @@ def main():
         outdir = os.path.join(work, "run0")
         rc, rout, dt_run = run_runner(exe, pid, work, outdir, seed, tier, replay=a.replay)
         if rc != 0 or not os.path.exists(os.path.join(outdir, "stats.json")):
-            broken.append("runner failed (rc=%s):\n%s" % (rc, rout[-3000:]))
+            crash = None
+            for fn in ("crash.json", "inflight.json"):
+                fp = os.path.join(outdir, fn)
+                if os.path.exists(fp):
+                    try:
+                        crash = json.load(open(fp))
+                    except Exception:
+                        crash = None
+                    break
+            if crash is not None:
+                # the real code (driven by the harness) panicked, killed the process or hung on this
+                # input: a concrete failing input
+                crash["runner_rc"] = rc
+                crash["runner_tail"] = rout[-1500:]
+                judge_fail = [(crash.get("index", 0), crash)]
+                notes.append("runner died on case %s" % crash.get("index"))
+            else:
+                broken.append("runner failed (rc=%s):\n%s" % (rc, rout[-3000:]))
         else:
             res = evaluate(outdir)
             if res["errors"]:
